@@ -55,6 +55,7 @@ func runC07(c *core.Ctx) {
 	c.RuleDoc("R07.3", "Sub view error translation uses the same pair")
 	c.RuleDoc("R07.6", "prefix tests against a view's root (os.FS root, mount translation) are on path-element boundaries")
 	c.RuleDoc("R07.10", "a helper delegates with the (file system, sub-path) pair of one Mount call and translates with it (= R06.3)")
+	c.RuleDoc("R07.12", "a helper asserts the operation's own interface before MountFS, so a view's own methods (and their guards) are the ones that run (= R08.11)")
 	c.RuleDoc("R07.11", "a method of the generic Sub view delegates to the exported operation of its own name")
 	c.RuleDoc("R07.8", "no method of a view type writes a field of its receiver")
 	c.RuleDoc("R07.9", "the error translator compares the failing path only within its own namespace (= R05.11)")
@@ -75,6 +76,9 @@ func runC07(c *core.Ctx) {
 		r07ViewDelegatesByName(c, p)
 		// R07.10 (= R06.3): helpers delegate with the pair of one Mount call
 		c.WithAlias(map[string]string{"R06.3": "R07.10"}, func() { r06Pairs(c, p) })
+		// R07.12 (= R08.11): the helpers ask the file system for the operation's own interface before MountFS — the generic
+		// view is both, and its own Remove/RemoveAll hold the "root of the view is kept" guard
+		c.WithAlias(map[string]string{"R08.11": "R07.12"}, func() { r08OwnCapabilityFirst(c, p, helperFuncs(p)) })
 		// R07.9 (= R05.11): the error translator never confuses the inner path with the caller's name
 		c.WithAlias(map[string]string{"R05.11": "R07.9"}, func() { r05NamespaceTyped(c, p) })
 	}
@@ -88,6 +92,7 @@ func runC07(c *core.Ctx) {
 	c.Floor("R07.8", 10)
 	c.Floor("R07.10", 15)
 	c.Floor("R07.11", 3)
+	c.Floor("R07.12", 10)
 	c.Floor("R07.9", 2)
 }
 
@@ -241,6 +246,56 @@ func r07Joins(c *core.Ctx, p *load.Program, va *validAnalysis) {
 				}
 				key := fname(fn) + "|" + ord.next("concat:"+typeKey(base.named)+"."+base.name)
 				c.Bad("R07.1", key, p.Pos(x.Pos()), fmt.Sprintf("%s glues a name onto the root %s.%s with string concatenation instead of path.Join: for the root \".\" (Sub(fs, \".\"), or a Sub at a mount point) the result \"./name\" is not a valid path and every operation below the view's root fails, and a \".\" name yields \"root/.\"", fname(fn), typeKey(base.named), base.name))
+			case *ssa.Alloc:
+				// a view built by a method of a view of the same type WITHOUT setting its root: only where the
+				// receiver's own root is known to be empty (SubVolume after Sub would otherwise be rooted at the OS root)
+				rp := recvParam(root)
+				if rp == nil || recvNamed(rp) == nil {
+					return
+				}
+				pt, ok := x.Type().(*types.Pointer)
+				if !ok {
+					return
+				}
+				for _, cf := range cfgs {
+					if !types.Identical(cf.named, pt.Elem()) || !types.Identical(recvNamed(rp), cf.named) {
+						continue
+					}
+					sets := false
+					if x.Referrers() != nil {
+						for _, r := range *x.Referrers() {
+							if fa, ok := r.(*ssa.FieldAddr); ok && ssax.FieldName(fa) == cf.name && fa.Referrers() != nil {
+								for _, rr := range *fa.Referrers() {
+									if _, isStore := rr.(*ssa.Store); isStore {
+										sets = true
+									}
+								}
+							}
+						}
+					}
+					if sets {
+						continue // judged at the store
+					}
+					key := fname(fn) + "|" + ord.next("fresh:"+typeKey(cf.named)+"."+cf.name)
+					empty := false
+					for _, f := range ssax.FactsAtInstr(x) {
+						bo, ok := f.Cond.(*ssa.BinOp)
+						if !ok || (bo.Op != token.EQL && bo.Op != token.NEQ) {
+							continue
+						}
+						for _, pair := range [][2]ssa.Value{{bo.X, bo.Y}, {bo.Y, bo.X}} {
+							k, isConst := pair[1].(*ssa.Const)
+							if !isConst || k.Value == nil || k.Value.ExactString() != `""` {
+								continue
+							}
+							if b, _, ok := ssax.FieldLoad(pair[0]); ok && b == ssa.Value(rp) && isLoadOfField(pair[0], rp, cf.name) && (bo.Op == token.EQL) == f.Val {
+								empty = true
+							}
+						}
+					}
+					c.Check(empty, "R07.1", key, p.Pos(x.Pos()), "a view without a root is built only where the receiver has none",
+						fmt.Sprintf("%s builds a %s whose %s is left empty on a path where the receiver's own %s may be set: the result of calling it on a Sub view is rooted at the parent's root (for os.FS: the OS root), so everything outside the view becomes reachable through it", fname(fn), typeKey(cf.named), cf.name, cf.name))
+				}
 			case *ssa.Store:
 				fa, ok := x.Addr.(*ssa.FieldAddr)
 				if !ok {
